@@ -83,7 +83,10 @@ def trees_for(tier, seed):
              ["not", ["wild", "[ab]c"]], ["or", ["and", ["lit", "a"], ["not", ["wild", "?x"]]], ["lit", "x-y=1"]],
              ["not", ["not", ["lit", "a"]]], ["and", ["lit", "a"], ["lit", "b.c"], ["wild", "a.*"]],
              ["and", ["or", ["lit", "a"], ["lit", "b.c"]], ["not", ["lit", "x-y=1"]]],
-             ["and", ["or", ["and", ["lit", "a"], ["lit", "zzz"]], ["and", ["lit", "b.c"], ["lit", "zzz"]]], ["lit", "x"]]]
+             ["and", ["or", ["and", ["lit", "a"], ["lit", "zzz"]], ["and", ["lit", "b.c"], ["lit", "zzz"]]], ["lit", "x"]],
+             # wildcards combining ? / [..] with a trailing or leading *
+             ["wild", "a?*"], ["not", ["wild", "[ab]?*"]], ["and", ["wild", "?x*"], ["not", ["lit", "a"]]], ["or", ["wild", "*[.]?"], ["lit", "A"]],
+             ["wild", "[!a]*"]]
     return base + fixed + extra
 
 
